@@ -5,7 +5,9 @@ import impl, cfg1d
 from layers.integ import layer_int, RecDisc, FakeMesh, FakeModel
 
 MODULE = 'Flowdyn.Props.C07'
-THEOREMS = []
+import core
+THEOREMS = core.theorems_in(['C07.lean'], 'Flowdyn.C07') + ['Flowdyn.C06.implicit_time', 'Flowdyn.C06.trapezoidal_time', 'Flowdyn.C06.gear_time', 'Flowdyn.C06.gear_first_is_trapezoidal'] + ['Flowdyn.C05.%s_step' % c for c in ('explicit', 'rk2', 'rk2_heun', 'rk3_heun', 'rk3ssp', 'rk4')] + ['Flowdyn.C05.lsStep_snoc']
+AUDIT_IMPORTS = ['Flowdyn.Props.C06', 'Flowdyn.Props.C05']
 PARTIAL = {}
 LEVEL_NOTE = "driver state machine (solve/restart/_solve) modelled and proved; integrator time advance from C05/C06 models"
 
@@ -13,8 +15,8 @@ ALL = ['explicit', 'rk2', 'rk2_heun', 'rk3_heun', 'rk3ssp', 'rk4', 'lsrk25bb', '
 
 
 def layers(ctx):
-    from layers.driver import layer_driver
-    return [layer_int, layer_driver]
+    from layers.driver import layer_driver, layer_istep
+    return [layer_int, layer_istep, layer_driver]
 
 
 def small_problem(rng, name):
@@ -23,7 +25,7 @@ def small_problem(rng, name):
     cfg = cfg1d.rand_config(rng, model=model, per=True, n=int(rng.integers(4, 9)), smooth=True, meshkind='uni',
                             scheme=['extrapol1'] if model != 'conv' else cfg1d.rand_scheme(rng, ['extrapol1', 'extrapol2', 'extrapol3']))
     if model == 'burgers':
-        cfg['prim'] = [[float(x) for x in (2.0 + 0.5 * rng.normal(size=cfg['n']))]]
+        cfg['prim'] = [[float(x) for x in (2.0 + 0.4 * rng.uniform(-1, 1, cfg['n']))]]
     return cfg
 
 
@@ -104,6 +106,10 @@ def oracle(ctx, seeds=None):
         rp = dict(cfg=cfg, integrator=name, cfl=cfl, t0=t0, it0=f0.it, tsave=tsave, stop=stop, restart=use_restart)
         mk = lambda: getattr(impl.integ, name)(msh, disc)
         keep = f0.copy()
+        # probe: the property is about bookkeeping of finite trajectories (a NaN time never satisfies `time >= tottime`)
+        ok, probe = impl.guarded(lambda: mk().solve(f0, cfl, stop={'maxit': nsteps + 4})[-1])
+        if not ok or probe.isnan() or not np.isfinite(probe.time):
+            res.count('skipped-unstable'); continue
         def run():
             s = mk()
             r = (s.restart if use_restart else s.solve)(f0, cfl, tsave, stop=stop)
